@@ -67,4 +67,85 @@ instance decPathShapeOkGen {P : Type} [Scalar P] [DecidableEq P] : ∀ cps : Lis
       decidable_of_iff (p0.pos = Pos.zero ∧ (WfType t0 ∧ PShape t0 p0.pos rest ∧ ChainOK t0 p0 rest))
         (by unfold PathShapeOk; simp only [h0])
 
+/-! ## (b) spinner / hold end times
+
+what the encoder writes is `start + duration`; what the decoder re-derives is `max((start + duration) − start, 0)` (spinner)
+resp. `max(start, start + duration) − start` (hold). -/
+
+/-- the sign-of-zero-tolerant form of `DurLaws`: the re-derived duration is numerically (`==`) the stored one. -/
+structure DurLawsZ (F : Type) [Scalar F] (RF : F → Prop) : Prop where
+  spinnerStop : ∀ t d : F, InLimit t → InLimit d →
+    RF (t + Scalar.max (d - t) 0) ∧ InLimit (t + Scalar.max (d - t) 0)
+  spinnerBack : ∀ t d : F, InLimit t → InLimit d →
+    Scalar.eq (Scalar.max ((t + Scalar.max (d - t) 0) - t) 0) (Scalar.max (d - t) 0) = true
+  holdStop : ∀ t e : F, InLimit t → InLimit e →
+    RF (t + (Scalar.max t e - t)) ∧ InLimit (t + (Scalar.max t e - t))
+  holdBack : ∀ t e : F, InLimit t → InLimit e →
+    Scalar.eq (Scalar.max t (t + (Scalar.max t e - t)) - t) (Scalar.max t e - t) = true
+
+/-- `DurLaws` restricted to times in a class `T`. -/
+structure DurLawsOn (F : Type) [Scalar F] (RF : F → Prop) (T : F → Prop) : Prop where
+  spinnerStop : ∀ t d : F, T t → T d → RF (t + Scalar.max (d - t) 0) ∧ InLimit (t + Scalar.max (d - t) 0)
+  spinnerBack : ∀ t d : F, T t → T d → Scalar.max ((t + Scalar.max (d - t) 0) - t) 0 = Scalar.max (d - t) 0
+  holdStop : ∀ t e : F, T t → T e → RF (t + (Scalar.max t e - t)) ∧ InLimit (t + (Scalar.max t e - t))
+  holdBack : ∀ t e : F, T t → T e → Scalar.max t (t + (Scalar.max t e - t)) - t = Scalar.max t e - t
+
+/-! ### the two refutations on actual doubles (both reproduced on the Rust crate) -/
+
+/-- start time `0.09`, end time `0.34` (the doubles nearest to these decimals). -/
+def driftStart : Float := Float.ofBits 0x3FB70A3D70A3D70A
+def driftEnd : Float := Float.ofBits 0x3FD5C28F5C28F5C3
+
+/-- **the stored duration DRIFTS** (numerically, not by the sign of a zero): start `0.09`, end `0.34` store the duration
+`0.25`; the encoder writes the end time `0.09 + 0.25 = 0.33999999999999997` (one ulp below `0.34`), from which the decoder
+re-derives `0.24999999999999997 ≠ 0.25` — for a spinner and for a hold note alike. (A rounding tie: `0.34 − 0.09` is rounded UP
+to `0.25`, `0.09 + 0.25` is rounded DOWN.) -/
+theorem duration_drifts_float :
+    InLimit driftStart ∧ InLimit driftEnd ∧
+    (Scalar.max (driftEnd - driftStart) 0).toBits = 0x3FD0000000000000 ∧
+    (Scalar.max driftStart driftEnd - driftStart).toBits = 0x3FD0000000000000 ∧
+    (driftStart + Scalar.max (driftEnd - driftStart) 0).toBits = 0x3FD5C28F5C28F5C2 ∧
+    (Scalar.max ((driftStart + Scalar.max (driftEnd - driftStart) 0) - driftStart) 0).toBits = 0x3FCFFFFFFFFFFFFF ∧
+    (Scalar.max driftStart (driftStart + (Scalar.max driftStart driftEnd - driftStart)) - driftStart).toBits = 0x3FCFFFFFFFFFFFFF ∧
+    Scalar.eq (Scalar.max ((driftStart + Scalar.max (driftEnd - driftStart) 0) - driftStart) 0)
+      (Scalar.max (driftEnd - driftStart) 0) = false ∧
+    Scalar.eq (Scalar.max driftStart (driftStart + (Scalar.max driftStart driftEnd - driftStart)) - driftStart)
+      (Scalar.max driftStart driftEnd - driftStart) = false := by
+  unfold InLimit; decide +kernel
+
+/-- start time `−(1 + 3·2⁻²²) = −1.0000007152557373`, end time `2147483647` (the parse limit itself). -/
+def overStart : Float := Float.ofBits 0xBFF00000C0000000
+def overEnd : Float := Float.ofInt 2147483647
+
+/-- **the written end time LEAVES THE PARSE LIMIT**: start `−1.0000007152557373`, end `2147483647` (both accepted) store the
+duration `2147483648.000001` (`2³¹ + 3·2⁻²²` rounded up to `2³¹ + 2⁻²⁰`); the encoder writes `start + duration =
+2147483647.0000002 > 2147483647`, which `f64::parse` (limit `i32::MAX`) rejects: the line is not accepted any more. -/
+theorem end_time_over_limit_float :
+    InLimit overStart ∧ InLimit overEnd ∧
+    (Scalar.max (overEnd - overStart) 0).toBits = 0x41E0000000000002 ∧
+    (Scalar.max overStart overEnd - overStart).toBits = 0x41E0000000000002 ∧
+    (overStart + Scalar.max (overEnd - overStart) 0).toBits = 0x41DFFFFFFFC00001 ∧
+    Scalar.lt (maxParseValue : Float) (overStart + Scalar.max (overEnd - overStart) 0) = true ∧
+    Scalar.lt (maxParseValue : Float) (overStart + (Scalar.max overStart overEnd - overStart)) = true := by
+  unfold InLimit; decide +kernel
+
+/-- **`DurLawsZ` (hence `DurLaws`) is false of IEEE doubles beyond the sign of a zero** — the `Back` clauses by
+`duration_drifts_float`, the `Stop` clauses by `end_time_over_limit_float`; each of the four clauses separately. -/
+theorem durLawsZ_float_false :
+    (¬ ∀ t d : Float, InLimit t → InLimit d →
+      Scalar.eq (Scalar.max ((t + Scalar.max (d - t) 0) - t) 0) (Scalar.max (d - t) 0) = true) ∧
+    (¬ ∀ t e : Float, InLimit t → InLimit e →
+      Scalar.eq (Scalar.max t (t + (Scalar.max t e - t)) - t) (Scalar.max t e - t) = true) ∧
+    (¬ ∀ t d : Float, InLimit t → InLimit d → InLimit (t + Scalar.max (d - t) 0)) ∧
+    (¬ ∀ t e : Float, InLimit t → InLimit e → InLimit (t + (Scalar.max t e - t))) ∧
+    ¬ DurLawsZ Float IeeeRep64 := by
+  obtain ⟨a1, a2, _, _, _, _, _, a3, a4⟩ := duration_drifts_float
+  obtain ⟨b1, b2, _, _, _, b3, b4⟩ := end_time_over_limit_float
+  refine ⟨fun h => ?_, fun h => ?_, fun h => ?_, fun h => ?_, fun D => ?_⟩
+  · have := h _ _ a1 a2; rw [a3] at this; cases this
+  · have := h _ _ a1 a2; rw [a4] at this; cases this
+  · have := (h _ _ b1 b2).2.1; rw [b3] at this; cases this
+  · have := (h _ _ b1 b2).2.1; rw [b4] at this; cases this
+  · have := D.spinnerBack _ _ a1 a2; rw [a3] at this; cases this
+
 end Rosu.C04
